@@ -282,7 +282,8 @@ fn bulk_rank1_avx512(bit_data: &[u64], positions: &[usize], chunk_size: usize) -
         let bit_offset = pos % 64;
 
         if word_index >= bit_data.len() {
-            results.push(0);
+            // at or past the end of the data: every one bit lies before `pos`
+            results.push(bit_data.iter().map(|w| w.count_ones() as usize).sum());
             continue;
         }
 
@@ -342,7 +343,8 @@ fn bulk_rank1_avx2(bit_data: &[u64], positions: &[usize], _chunk_size: usize) ->
         let bit_offset = pos % 64;
 
         if word_index >= bit_data.len() {
-            results.push(0);
+            // at or past the end of the data: every one bit lies before `pos`
+            results.push(bit_data.iter().map(|w| w.count_ones() as usize).sum());
             continue;
         }
 
@@ -414,7 +416,8 @@ fn bulk_rank1_popcnt(bit_data: &[u64], positions: &[usize], use_prefetch: bool) 
         let bit_offset = pos % 64;
 
         if word_index >= bit_data.len() {
-            results.push(0);
+            // at or past the end of the data: every one bit lies before `pos`
+            results.push(bit_data.iter().map(|w| w.count_ones() as usize).sum());
             continue;
         }
 
@@ -666,7 +669,8 @@ fn bulk_rank1_neon(bit_data: &[u64], positions: &[usize]) -> Vec<usize> {
         let bit_offset = pos % 64;
 
         if word_index >= bit_data.len() {
-            results.push(0);
+            // at or past the end of the data: every one bit lies before `pos`
+            results.push(bit_data.iter().map(|w| w.count_ones() as usize).sum());
             continue;
         }
 
@@ -768,7 +772,8 @@ fn bulk_rank1_scalar(bit_data: &[u64], positions: &[usize]) -> Vec<usize> {
         let bit_offset = pos % 64;
 
         if word_index >= bit_data.len() {
-            results.push(0);
+            // at or past the end of the data: every one bit lies before `pos`
+            results.push(bit_data.iter().map(|w| w.count_ones() as usize).sum());
             continue;
         }
 
